@@ -10,7 +10,8 @@
 From Coq Require Import ZArith List Bool PArith FMapPositive.
 From Cproc Require Import Lib.Wrap Model.Qbe Spec.CArith Spec.Csem Model.Lower
   Proofs.LowerProofsExec Proofs.LowerProofsArith Proofs.LowerProofsConv Proofs.LowerProofsBin
-  Proofs.LowerProofsBitsMath Proofs.LowerProofsBits Proofs.LowerProofsCopy Proofs.LowerProofsExpr Proofs.LowerProofsExamples.
+  Proofs.LowerProofsBitsMath Proofs.LowerProofsBits Proofs.LowerProofsCopy Proofs.LowerProofsExpr Proofs.LowerProofsExamples
+  Model.Zero Model.LowerZero Proofs.LowerProofsCopyBytes Proofs.LowerProofsZeroBytes.
 Import ListNotations.
 Local Open Scope Z_scope.
 
@@ -244,3 +245,111 @@ Print Assumptions C01_copy_span_exact.
 
 Example C01_copy_nonvacuous : copy_span 5 4 = 8 /\ copy_span 0 1 = 1 /\ copy_span 12 4 = 12 /\ copy_span 24 16 = 24.
 Proof. exact copy_span_overshoot. Qed.
+
+(* ---- (d') aggregate copy on byte contents.  [byte_at m a]: the byte at address a (None outside live blocks);
+   [span_ok m a n]: [a, a+n) is inside the 64-bit address space, inside the address window of one live block and
+   inside that block; [same_shape]: same live blocks, same sizes; [bytes_in_range]: the source bytes are bytes
+   (the memory of Qbe.v maps offsets to arbitrary integers; stores only ever write v mod 256).
+   After the emitted chain: byte d+i is what byte s+i was for every i < copy_span (= size when the access width
+   divides the size, C01_copy_span_exact), every other byte is what it was, the temporaries below n are untouched.
+   Overlap: none, exact (d = s) or destination below source; s < d < s + span is excluded and really wrong
+   (C01_funccopy_bytes_overlap_refuted). *)
+Theorem C01_funccopy_bytes :
+  forall fo env m dst src (n : positive) size align s d,
+  ref_lt n dst -> ref_lt n src -> read env Kl src = Ok s -> read env Kl dst = Ok d ->
+  let span := copy_span size align in
+  span_ok m s span -> span_ok m d span ->
+  d <= s \/ s + span <= d ->
+  bytes_in_range m s (s + span) ->
+  exists env' m',
+    exec fo (env, m) (snd (fst (funccopy dst src size align n))) = Ok (env', m') /\
+    agree_below n env env' /\ same_shape m m' /\
+    (forall i, 0 <= i < span -> byte_at m' (d + i) = byte_at m (s + i)) /\
+    (forall a, ~ (d <= a < d + span) -> byte_at m' a = byte_at m a).
+Proof. exact funccopy_bytes. Qed.
+Print Assumptions C01_funccopy_bytes.
+
+(* the usual case: the access width min(align, 8) divides the size - exactly the object *)
+Theorem C01_funccopy_bytes_exact :
+  forall fo env m dst src (n : positive) size align s d,
+  0 < size -> size mod copy_width align = 0 ->
+  ref_lt n dst -> ref_lt n src -> read env Kl src = Ok s -> read env Kl dst = Ok d ->
+  span_ok m s size -> span_ok m d size ->
+  d <= s \/ s + size <= d ->
+  bytes_in_range m s (s + size) ->
+  exists env' m',
+    exec fo (env, m) (snd (fst (funccopy dst src size align n))) = Ok (env', m') /\
+    agree_below n env env' /\ same_shape m m' /\
+    (forall i, 0 <= i < size -> byte_at m' (d + i) = byte_at m (s + i)) /\
+    (forall a, ~ (d <= a < d + size) -> byte_at m' a = byte_at m a).
+Proof. exact funccopy_bytes_exact. Qed.
+Print Assumptions C01_funccopy_bytes_exact.
+
+(* 12-byte struct, alignment 4, inside a 40-byte block with guard bytes and a bystander block *)
+Example C01_funccopy_bytes_nonvacuous :
+  let s := BLK * 3 + 4 in let d := BLK * 3 + 20 in
+  copy_span 12 4 = 12 /\
+  span_ok mem_cb s 12 /\ span_ok mem_cb d 12 /\ (d <= s \/ s + 12 <= d) /\ bytes_in_range mem_cb s (s + 12) /\
+  exists env' m',
+    exec fo_cb (env_cb, mem_cb) (snd (fst (funccopy (RTmp 2%positive) (RTmp 1%positive) 12 4 3%positive))) = Ok (env', m') /\
+    map (fun i => byte_at m' (BLK * 3 + i)) [16;17;18;19; 20;21;22;23;24;25;26;27;28;29;30;31; 32;33;34;35; 40] =
+      map Some [238;238;238;238; 1;2;3;4;5;6;7;8;9;10;11;255; 238;238;238;238] ++ [None] /\
+    map (fun i => byte_at m' (BLK * 3 + i)) [4;5;6;7;8;9;10;11;12;13;14;15] = map Some [1;2;3;4;5;6;7;8;9;10;11;255] /\
+    map (fun i => byte_at m' (BLK * 5 + i)) [0;1;2;3;4;5;6;7;8] = map Some [9;8;7;6;5;4;3;2] ++ [None].
+Proof. exact funccopy_bytes_example. Qed.
+
+(* destination 4 bytes above the source, 8 bytes copied with 4-byte accesses: byte d+4 receives the old byte s *)
+Example C01_funccopy_bytes_overlap_refuted :
+  let s := BLK * 3 + 4 in let d := BLK * 3 + 8 in
+  copy_span 8 4 = 8 /\ span_ok mem_cb s 8 /\ span_ok mem_cb d 8 /\ s < d < s + 8 /\
+  exists m', copy_sem 8 4 mem_cb s d = Ok m' /\
+    byte_at mem_cb (s + 4) = Some 5 /\ byte_at m' (d + 4) = Some 1.
+Proof. exact funccopy_bytes_overlap_refuted. Qed.
+
+(* ---- zero() of funcinit on byte contents.  [gzero addr align offset end] is the code zero() emits (Model/Zero.v's
+   loop, each (offset, width) as `[add] + store 0`, Model/LowerZero.v).  For every power-of-two alignment and every
+   range: the code exists, the loop stops at [final] with end <= final < end + min(align, 8), final <= every
+   multiple of min(align, 8) that is >= end (so no store passes the end of an object whose size is a multiple of
+   its alignment, and final = end when end is such a multiple), and executing it makes all bytes of
+   [base+offset, base+final) zero and leaves every other byte as it was. *)
+Theorem C01_zero_bytes :
+  forall fo env m addr (n : positive) align offset e base,
+  (exists k, align = 2 ^ k)%N -> ref_lt n addr -> read env Kl addr = Ok base ->
+  exists g final,
+    gzero addr align offset e = Some g /\
+    ((offset < e)%N -> (e <= final < e + capalign align)%N) /\ ((e <= offset)%N -> final = offset) /\
+    (forall e', (e <= e')%N -> (offset <= e')%N -> (e' mod capalign align = 0)%N -> (final <= e')%N) /\
+    (((offset < final)%N -> span_ok m (base + Z.of_N offset) (Z.of_N final - Z.of_N offset)) ->
+     exists env' m',
+       exec fo (env, m) (snd (fst (g n))) = Ok (env', m') /\ agree_below n env env' /\ same_shape m m' /\
+       (forall i, Z.of_N offset <= i < Z.of_N final -> byte_at m' (base + i) = Some 0) /\
+       (forall a, ~ (base + Z.of_N offset <= a < base + Z.of_N final) -> byte_at m' a = byte_at m a)).
+Proof. exact zero_bytes. Qed.
+Print Assumptions C01_zero_bytes.
+
+Theorem C01_zero_bytes_exact :
+  forall fo env m addr (n : positive) align offset e base,
+  (exists k, align = 2 ^ k)%N -> (offset <= e)%N -> (e mod capalign align = 0)%N ->
+  ref_lt n addr -> read env Kl addr = Ok base ->
+  ((offset < e)%N -> span_ok m (base + Z.of_N offset) (Z.of_N e - Z.of_N offset)) ->
+  exists g env' m',
+    gzero addr align offset e = Some g /\
+    exec fo (env, m) (snd (fst (g n))) = Ok (env', m') /\ agree_below n env env' /\ same_shape m m' /\
+    (forall i, Z.of_N offset <= i < Z.of_N e -> byte_at m' (base + i) = Some 0) /\
+    (forall a, ~ (base + Z.of_N offset <= a < base + Z.of_N e) -> byte_at m' a = byte_at m a).
+Proof. exact zero_bytes_exact. Qed.
+Print Assumptions C01_zero_bytes_exact.
+
+(* alignment 4, zero [5, 14) of a 40-byte block: stores b@5 h@6 w@8 w@12, the loop stops at 16 *)
+Example C01_zero_bytes_nonvacuous :
+  let env := PM.add 1%positive (Kl, BLK * 3) (PM.empty (cls * Z)) in
+  zero 17 4 5 14 = ZDone [(5, 1); (6, 2); (8, 4); (12, 4)]%N 16%N /\
+  span_ok mem_cb (BLK * 3 + 5) (16 - 5) /\
+  exists g env' m',
+    gzero (RTmp 1%positive) 4 5 14 = Some g /\
+    exec fo_cb (env, mem_cb) (snd (fst (g 2%positive))) = Ok (env', m') /\
+    map (fun i => byte_at m' (BLK * 3 + i)) [3;4; 5;6;7;8;9;10;11;12;13;14;15; 16;17; 40] =
+      map Some [238;1; 0;0;0;0;0;0;0;0;0;0;0; 238;238] ++ [None] /\
+    map (fun i => byte_at mem_cb (BLK * 3 + i)) [3;4; 5;6;7;8;9;10;11;12;13;14;15; 16;17; 40] =
+      map Some [238;1; 2;3;4;5;6;7;8;9;10;11;255; 238;238] ++ [None].
+Proof. exact zero_bytes_example. Qed.
